@@ -1148,6 +1148,8 @@ impl ElementRaw {
         }
         self.content.clear();
         self.parent = ElementOrModel::None;
+        // a removed element is not part of any file
+        self.file_membership.clear();
     }
 
     /// set the character data of this element
